@@ -67,8 +67,7 @@ def build(case: dict, decl_seed: int | None = None, tweak: str | None = None):
 def run(case: dict, lean: Lean) -> Outcome:
     from lenskit.pipeline import PipelineBuilder
     from lenskit.diagnostics import PipelineWarning
-    sys.path.insert(0, os.path.dirname(os.path.dirname(os.path.dirname(os.path.abspath(__file__)))))
-    from c13_diff import builder_state
+    from lkv_components import builder_state
     # duplicate alias names make the case ill-formed (the builder rejects them): keep the first
     case = dict(case); seen = set(); case["aliases"] = [a for a in case["aliases"] if not (a[0] in seen or seen.add(a[0]))]
     pb = build(case)
